@@ -197,6 +197,15 @@ fn pump(w: Option<&Wr>, r: Option<&Rd>, st: &mut Watch) {
   }
 }
 
+/// participant before topic before endpoint, on both sides (every entity's parent exists when it is created)
+fn creation_order_is_valid(order: &[Ev]) -> bool {
+  let pos = |e: &Ev| order.iter().position(|x| std::mem::discriminant(x) == std::mem::discriminant(e));
+  match (pos(&Ev::P1), pos(&Ev::T1), pos(&Ev::W), pos(&Ev::P2), pos(&Ev::T2), pos(&Ev::R)) {
+    (Some(p1), Some(t1), Some(w), Some(p2), Some(t2), Some(r)) => p1 < t1 && t1 < w && p2 < t2 && t2 < r,
+    _ => false,
+  }
+}
+
 fn run_scenario(sc: &Scenario, domain: u16, uniq: &str) -> Obs {
   let mut obs = Obs::default();
   capture::set_loss(domain, sc.loss);
@@ -692,10 +701,27 @@ pub fn run(args: &Args) -> i32 {
         let domain = 1 + (wk as u16) * per + (k % per);
         k += 1;
         let t0 = Instant::now();
-        let res = std::panic::catch_unwind(std::panic::AssertUnwindSafe(|| {
-          run_scenario(&sc, domain, &format!("{}_{}", pid, i))
-        }));
-        let obs = res.unwrap_or_else(|_| Obs { note: "panic".into(), ..Default::default() });
+        let mut attempt = 0;
+        let obs = loop {
+          let res = std::panic::catch_unwind(std::panic::AssertUnwindSafe(|| {
+            run_scenario(&sc, domain, &format!("{}_{}_{}", pid, i, attempt))
+          }));
+          let mut obs = res.unwrap_or_else(|_| Obs { note: "panic".into(), ..Default::default() });
+          // An entity could not be CREATED although its parent exists (DomainParticipant::new timing out with
+          // "Discovery thread channel error: Timeout", create_datareader failing with "Cannot inform Discovery ...
+          // Full"): the API reported a failure to the application, which is what happens on a heavily loaded
+          // machine and is not what C07 is about.  The scenario is run again (at most 3 more times); the number of
+          // repetitions goes into the evidence.  A scenario whose creations all succeeded is never repeated.
+          if obs.note == "setup-failed" && creation_order_is_valid(&sc.order) && attempt < 3 {
+            attempt += 1;
+            thread::sleep(StdDuration::from_millis(1500 * attempt as u64));
+            continue;
+          }
+          if attempt > 0 && obs.note.is_empty() {
+            obs.note = format!("setup-retried-{}", attempt);
+          }
+          break obs;
+        };
         let _ = tx.send((i, sc, obs, t0.elapsed().as_secs_f64()));
       }
     }));
